@@ -3,6 +3,8 @@
 package client
 
 import (
+	"strings"
+
 	"github.com/aws/aws-sdk-go-v2/aws"
 	"github.com/aws/aws-sdk-go-v2/service/dynamodb"
 	"github.com/aws/aws-sdk-go-v2/service/dynamodb/types"
@@ -153,40 +155,90 @@ func VerifC16Batch() {
 	nd.Reach("end")
 }
 
-// VerifC16KeyCondition: a Query whose key condition is an equality on the partition key, optionally joined
-// by one sort-key condition, is accepted; other shapes are rejected.
+// VerifC16KeyCondition: a Query whose key condition is an equality on the partition key of the addressed
+// table or index, optionally joined by AND with one sort-key condition (=, <, <=, >, >=, BETWEEN,
+// begins_with), is accepted; every other shape is rejected. Targets: table with a sort key, table
+// without one, index with and without a sort key. "P" stands for the partition key of the target, "S"
+// for its sort key, "F" for an attribute that is no key of the target; names may be written through #aliases.
 func VerifC16KeyCondition() {
-	c := vClient(true)
-	nd.Assert(vPut(c, vItem{"p": vS("k"), "s": vS("r"), "f": vS("x")}) == nil, "setup-put")
-	valid := []string{"p = :p", "p = :p AND s = :s", "p = :p AND s < :s", "p = :p AND s BETWEEN :s AND :s", "p = :p AND begins_with(s, :s)", "s > :s AND p = :p"}
-	invalid := []string{"p < :p", "p = :p OR s = :s", "s = :s", "p = :p AND f = :s", "NOT p = :p", "p = :p AND s = :s AND s < :s", "p <> :p", "f = :p", "attribute_exists(p)", "p = :p AND contains(s, :s)"}
-	vals := func(e string) vItem {
-		v := vItem{}
-		for i := 0; i+1 < len(e); i++ {
-			if e[i] == ':' {
-				v[e[i:i+2]] = vS("k")
-			}
-		}
-		return v
+	target := nd.Choice("target", 4) // 0 table (p,s); 1 table (p); 2 index (g,h); 3 index (g)
+	withRange := target != 1
+	c := vClient(withRange)
+	P, S, F := "p", "s", "f"
+	index := ""
+	switch target {
+	case 1:
+		S = ""
+	case 2:
+		nd.Assert(AddIndex(vCtx, c, vTbl, vIdx, "g", "h") == nil, "setup-addindex")
+		P, S, F, index = "g", "h", "p", vIdx
+	case 3:
+		nd.Assert(AddIndex(vCtx, c, vTbl, vIdx, "g", "") == nil, "setup-addindex")
+		P, S, F, index = "g", "", "p", vIdx
 	}
-	if nd.Choice("valid", 2) == 1 {
-		e := valid[nd.Choice("shape", len(valid))]
-		err, panicked := vCatch(func() error {
-			_, e2 := c.Query(vCtx, &dynamodb.QueryInput{TableName: aws.String(vTbl), KeyConditionExpression: aws.String(e), ExpressionAttributeValues: vals(e)})
-			return e2
-		})
+	nd.Assert(vPut(c, vItem{"p": vS("k"), "s": vS("r"), "f": vS("x"), "g": vS("k"), "h": vS("r")}) == nil, "setup-put")
+	// shapes over P, S, F; a shape that mentions S is used only when the target has a sort key
+	valid := []string{"P = :p", "(P = :p)", "P = :p AND S = :s", "P = :p AND S < :s", "P = :p AND S <= :s", "P = :p AND S > :s", "P = :p AND S >= :s",
+		"P = :p AND S BETWEEN :s AND :t", "P = :p AND begins_with(S, :s)", "S > :s AND P = :p", "(P = :p) AND (S = :s)", "P = :p and begins_with(S, :s)"}
+	invalid := []string{"P < :p", "P = :p OR S = :s", "S = :s", "P = :p AND F = :s", "NOT P = :p", "P = :p AND S = :s AND S < :t", "P <> :p", "F = :p",
+		"attribute_exists(P)", "P = :p AND contains(S, :s)", "P = :p AND S <> :s", "P = :p AND P = :s", "S = :s AND S = :p", "begins_with(P, :p)",
+		"P IN (:p)", "P BETWEEN :p AND :s", "P = :p AND size(S) > :s", "P = :p AND NOT S = :s", "P = :p AND S IN (:s)", "P = :p AND attribute_exists(S)",
+		"P = S", "P = :p AND S = F", "P = :p OR P = :s", "P = :p AND begins_with(F, :s)", "P = :p AND F BETWEEN :s AND :t", "P >= :p AND S = :s"}
+	isValid := nd.Choice("valid", 2) == 1
+	shapes := invalid
+	if isValid {
+		shapes = valid
+	}
+	e := shapes[nd.Choice("shape", len(shapes))]
+	if S == "" {
+		if !strings.Contains(e, "S") {
+			// nothing to adapt
+		} else if isValid {
+			// a sort-key condition on a target without a sort key is not a key condition
+			isValid = false
+			S = "s"
+			if target == 3 {
+				S = "h"
+			}
+		} else {
+			S = "s"
+		}
+	}
+	alias := nd.Choice("alias", 2) == 1
+	names := map[string]string{}
+	sub := func(e, letter, attr string) string {
+		if !strings.Contains(e, letter) {
+			return e
+		}
+		if alias {
+			names["#"+attr] = attr
+			attr = "#" + attr
+		}
+		return strings.ReplaceAll(e, letter, attr)
+	}
+	e = sub(sub(sub(e, "P", P), "S", S), "F", F)
+	vals := vItem{}
+	for i := 0; i+1 < len(e); i++ {
+		if e[i] == ':' {
+			vals[e[i:i+2]] = vS("k")
+		}
+	}
+	in := &dynamodb.QueryInput{TableName: aws.String(vTbl), KeyConditionExpression: aws.String(e), ExpressionAttributeValues: vals}
+	if index != "" {
+		in.IndexName = aws.String(index)
+	}
+	if len(names) > 0 {
+		in.ExpressionAttributeNames = names
+	}
+	err, panicked := vCatch(func() error {
+		_, e2 := c.Query(vCtx, in)
+		return e2
+	})
+	if isValid {
 		nd.Reach("valid")
 		nd.Assert(err == nil && !panicked, "C16-valid-key-condition-accepted ["+e+"]")
 	} else {
-		if nd.Known("C16-key-condition-shape-unchecked") {
-			nd.Reach("end")
-			return
-		}
-		e := invalid[nd.Choice("shape", len(invalid))]
-		err, panicked := vCatch(func() error {
-			_, e2 := c.Query(vCtx, &dynamodb.QueryInput{TableName: aws.String(vTbl), KeyConditionExpression: aws.String(e), ExpressionAttributeValues: vals(e)})
-			return e2
-		})
+		nd.Reach("invalid")
 		nd.Assert(err != nil || panicked, "C16-invalid-key-condition-rejected ["+e+"]")
 	}
 	nd.Reach("end")
